@@ -1,5 +1,6 @@
 import AquaVerif.Proofs.WeatherBind
 import AquaVerif.Proofs.GwSeries
+import AquaVerif.Proofs.PrepareGddLookahead
 import AquaVerif.Model.RunShape
 /-
 Property C14 — no look-ahead: past outputs do not depend on future weather.
@@ -148,5 +149,46 @@ theorem impl_outside_window_irrelevant {κ ι ι' : Type} (s e : Int) (t : WTabl
     weatherMatrix s e t' = weatherMatrix s e t :=
   weatherMatrix_extra_rows s e t t' m hview hout hfirst hlast
 end impl
+
+
+/-! ## The restriction to calendar-day crops that are not converted (`SwitchGDD = 0`) is necessary -/
+
+/-- The restriction of "no look-ahead" to calendar-day crops is NECESSARY.  For `SwitchGDD == 1`
+`prepare_gdd` takes each stage threshold as the mean/median over ALL seasons of the window
+`pl_date … time_span[-1]`; appending the rows of a further season (extending the end date) changes
+the thresholds used from the first season on.  Witness over ℚ: two seasons of four days, emergence
+threshold 1 → 2 degree-days. -/
+theorem switchgdd_conversion_looks_ahead_by_design :
+    ∃ (rows₁ ext : List (Option Nat × ℚ)) (g₁ g₂ : Aqua.GddStages ℚ),
+      Aqua.prepareGdd Rat.floor 2 true 0 Aqua.lookaheadStages Aqua.lookaheadOld rows₁ = .ok g₁ ∧
+      Aqua.prepareGdd Rat.floor 2 true 0 Aqua.lookaheadStages Aqua.lookaheadOld (rows₁ ++ ext)
+        = .ok g₂ ∧
+      g₁.emergence ≠ g₂.emergence :=
+  Aqua.switchGdd_extension_changes_thresholds
+
+/-- Positive counterpart: the conversion depends on the weather window only through the distinct
+season labels (order of first appearance) and the per-season degree lists — result or error. -/
+theorem switchgdd_conversion_depends_on_seasons_only {α : Type} [Field α] [LinearOrder α]
+    [IsStrictOrderedRing α] (toInt : α → Int) (cropType : Nat) (hasCol : Bool) (sumFun : Nat)
+    (s : Aqua.GddStagesIn α) (old : Aqua.GddStages α) {rows rows' : List (Option Nat × α)}
+    (hl : Aqua.uniqLabels (rows.map (·.1)) = Aqua.uniqLabels (rows'.map (·.1)))
+    (hs : ∀ k, Aqua.seasonGdd rows k = Aqua.seasonGdd rows' k) :
+    Aqua.prepareGdd toInt cropType hasCol sumFun s old rows =
+      Aqua.prepareGdd toInt cropType hasCol sumFun s old rows' :=
+  Aqua.prepareGdd_congr_seasons toInt cropType hasCol sumFun s old hl hs
+
+/-- Within ONE season: extending the window by rows of the same season leaves every threshold read
+at a non-negative calendar-day position unchanged (mean and median). -/
+theorem switchgdd_same_season_extension_keeps_thresholds {α : Type} [Field α] [LinearOrder α]
+    [IsStrictOrderedRing α] {toInt : α → Int} {cropType : Nat} {hasCol : Bool} {sumFun : Nat}
+    {s : Aqua.GddStagesIn α} {old g₁ g₂ : Aqua.GddStages α}
+    {rows₁ ext : List (Option Nat × α)} {k : Nat}
+    (h₁ : Aqua.prepareGdd toInt cropType hasCol sumFun s old rows₁ = .ok g₁)
+    (h₂ : Aqua.prepareGdd toInt cropType hasCol sumFun s old (rows₁ ++ ext) = .ok g₂)
+    (hne : rows₁ ≠ [])
+    (hk₁ : ∀ r ∈ rows₁, r.1 = some k) (hk₂ : ∀ r ∈ ext, r.1 = some k)
+    (hsf : sumFun = 0 ∨ sumFun = 1) (a : Aqua.Stage) (ha : 0 ≤ toInt (a.cd s)) :
+    a.val g₂ = a.val g₁ :=
+  Aqua.prepareGdd_single_season_prefix h₁ h₂ hne hk₁ hk₂ hsf a ha
 
 end Aqua.C14
